@@ -231,8 +231,9 @@ class Shaper:
 
     def span_of(self, d, token_collapse=False):
         """(start, end) offsets of the first / last token below derivation node d, filtered ones included.
-        token_collapse: model of finding F-C06-1 - a ?-rule that is replaced by a single *token* cannot carry the
-        filtered tokens it matched next to it, so only that token's own span reaches the parent."""
+        token_collapse: model of finding F-C06-1 - a ?-rule that is replaced by a single *token* (or a single None
+        placeholder) cannot carry the filtered tokens it matched next to it, so only that token's own span (nothing)
+        reaches the parent."""
         if d[0] == 't':
             return self.inp.leaf_span(d[3], d[4])
         if token_collapse:
@@ -248,6 +249,8 @@ class Shaper:
                     self._kept_leaves(d, nt.keep, leaves)
                     if len(leaves) == 1:
                         return self.inp.leaf_span(leaves[0][3], leaves[0][4])
+                if kids == [None]:
+                    return None              # a lone None placeholder: nothing to hang the span on either
         lo = hi = None
         for c in d[3]:
             sp = self.span_of(c, token_collapse)
@@ -320,6 +323,13 @@ class Shaper:
             return kids
         if '?' in nt.mods and len(kids) == 1 and not prod.alias:
             self.fired.add('expand1')
+            if self.spans and kids[0] is not None and kids[0][0] == 'N' and kids[0][3] is None:
+                # the node now stands for this rule too: a node that matched nothing itself takes the span of the
+                # innermost ?-rule around it that did match something
+                sp = self.span_of(d, self.spans == 'token-collapse')
+                if sp:
+                    self.fired.add('empty-node-takes-span-of-inlined-parent')
+                    kids[0][3] = list(sp)
             return kids
         if prod.alias:
             self.fired.add('alias')
